@@ -23,12 +23,11 @@ fn ratio(a: &str, b: &str) -> f32 {
 /// u32 quantisation of the heap key can tell apart (never generated here)
 fn reference(word: &str, cands: &[&str], n: usize, cutoff: f32) -> Option<Vec<String>> {
     let mut kept: Vec<(f32, &str)> = cands.iter().map(|c| (ratio(word, c), *c)).filter(|(r, _)| *r >= cutoff).collect();
-    for i in 0..kept.len() {
-        for j in 0..kept.len() {
-            let (x, y) = (kept[i].0, kept[j].0);
-            if x != y && (x - y).abs() < 1.0 / 256.0 / 65536.0 {
-                return None;
-            }
+    let mut rs: Vec<f32> = kept.iter().map(|k| k.0).collect();
+    rs.sort_by(|a, b| a.partial_cmp(b).unwrap());
+    for w in rs.windows(2) {
+        if w[0] != w[1] && (w[0] - w[1]).abs() < 1.0 / 256.0 / 65536.0 {
+            return None;
         }
     }
     kept.sort_by(|a, b| b.0.partial_cmp(&a.0).unwrap().then_with(|| a.1.cmp(b.1)));
@@ -92,6 +91,47 @@ fn check(word: &str, cands: &[&str], n: usize, cutoff: f32, out: &mut Local) {
                 out.violation(
                     "close_matches.differs_from_exhaustive_ranking",
                     format!("got {:?} but exhaustive ranking gives {:?} | {} | ratios={:?}", got, expect, ctx(), ratios),
+                );
+            }
+        }
+    }
+}
+
+/// `check` with a context that does not print thousands of candidates
+fn check_quiet(word: &str, cands: &[&str], n: usize, cutoff: f32, out: &mut Local) {
+    out.eval();
+    let expect = match reference(word, cands, n, cutoff) {
+        Some(e) => e,
+        None => {
+            out.count("skipped_ratios_closer_than_key_quantisation");
+            return;
+        }
+    };
+    match guard(|| get_close_matches(word, cands, n, cutoff).into_iter().map(|s| s.to_string()).collect::<Vec<String>>()) {
+        Err(p) => out.violation("panic", format!("get_close_matches panicked: {} | word={:?} {} candidates n={} cutoff={}", p, word, cands.len(), n, cutoff)),
+        Ok(got) => {
+            if expect.len() == n && n > 0 {
+                out.count("calls_truncated_at_n");
+            }
+            if got != expect {
+                let k = got.iter().zip(expect.iter()).position(|(g, e)| g != e).unwrap_or(got.len().min(expect.len()));
+                out.violation(
+                    "close_matches.differs_from_exhaustive_ranking",
+                    format!(
+                        "word={:?} with {} candidates (about {} of them at or above the cutoff), n={} cutoff={}: {} results, {} expected; first difference at position {}: got {:?} (ratio {:?}), expected {:?} (ratio {:?})",
+                        word,
+                        cands.len(),
+                        cands.iter().filter(|c| ratio(word, c) >= cutoff).count(),
+                        n,
+                        cutoff,
+                        got.len(),
+                        expect.len(),
+                        k,
+                        got.get(k),
+                        got.get(k).map(|g| ratio(word, g)),
+                        expect.get(k),
+                        expect.get(k).map(|e| ratio(word, e))
+                    ),
                 );
             }
         }
@@ -428,6 +468,43 @@ pub fn families() -> Vec<Box<dyn Family>> {
                         }
                     }
                 }
+            },
+        ),
+        family(
+            "many_candidates",
+            "THOUSANDS of qualifying candidates in one call (4000 / 4096 / 4097 / 5000 / 9000 / 70000 dictionary entries derived from the word by suffixes, infixes and numbering, nearly all above the cutoff) x n in {1, 3, 10, 2000, 5000} x cutoffs {0.0, 0.3, 0.6}: the first n of the exhaustive ranking, with ties broken lexicographically",
+            false,
+            1,
+            |cfg| if cfg.tiny { 1 } else { cfg.tier.pick(10, 40) },
+            |idx, cfg, out| {
+                let mut rng = Rng::for_case(cfg.seed, "c18.many_candidates", idx);
+                let sizes = [4000usize, 4096, 4097, 5000, 9000, 70_000];
+                let count = if cfg.tiny { 12 } else if idx % 10 == 9 { 70_000 } else { sizes[(idx % 5) as usize] };
+                let word = *rng.pick(&["configuration", "konfiguration", "abcabcabcabc", "similarity"]);
+                let mut cands: Vec<String> = Vec::with_capacity(count + 4);
+                for i in 0..count {
+                    cands.push(match i % 4 {
+                        0 => format!("{}-{}", word, i),
+                        1 => format!("{}{}", &word[..word.len() / 2], i),
+                        2 => format!("{}{}{}", &word[..3], i % 97, &word[3..]),
+                        _ => format!("x{}{}", i % 13, word),
+                    });
+                }
+                cands.push(word.to_string());
+                cands.push(format!("{}s", word));
+                cands.push(word[1..].to_string());
+                // a fixed shuffle so that the best entries are not at the ends
+                for i in (1..cands.len()).rev() {
+                    let j = rng.below(i + 1);
+                    cands.swap(i, j);
+                }
+                let refs: Vec<&str> = cands.iter().map(|s| s.as_str()).collect();
+                out.sample(|| format!("word={:?} with {} candidates", word, refs.len()));
+                out.nontrivial(&(word, count, idx));
+                out.count("many_candidate_cases");
+                let n = *rng.pick(&[1usize, 3, 10, 2000, 5000]);
+                let cutoff = *rng.pick(&[0.0f32, 0.3, 0.6]);
+                check_quiet(word, &refs, n, cutoff, out);
             },
         ),
         family(
